@@ -82,9 +82,9 @@ func (p *StablePool) Get() interface{} {
 	// correct getIndex
 	p.getIndex %= len(p.pool)
 
-	// iterate the whole pool to find an item
-	stopAt := p.getIndex - 1
-	for i := p.getIndex; i != stopAt; i = (i + 1) % len(p.pool) {
+	// iterate the whole pool once to find an item
+	for n := 0; n < len(p.pool); n++ {
+		i := (p.getIndex + n) % len(p.pool)
 		if p.pool[i] != nil {
 			x := p.pool[i]
 			p.pool[i] = nil
